@@ -2,23 +2,29 @@ import JunoModel.C08.Proofs
 /-!
 C08 — property theorems (statements only; helper lemmas are in `Proofs.lean`).
 
-The model (`Model.lean`) transcribes the read handlers of rpc/v8, rpc/v9, rpc/v10 over the part
-of `blockchain.Reader` they use. The specification side is `resolve` (what a block id denotes on
-the node's chain), `finality` and the chain itself. The theorems say, for every node reachable
-by any history of `Store` / `RevertHead` / `SetL1Head` (`run ops`; only `WellFormed` is used) and
-every identifier, that each handler answers with the data of exactly the denoted block and with
-the not-found error exactly when nothing is denoted. Where the code leaves the statement the
-full statement is kept as a comment, the exact behaviour is proved (`_partial` carries the
-excluded case in its name/hypotheses) and a concrete witness of the deviation is proved next to
-it; the same witnesses are replayed on the real code by the harness (known/C08.json).
+The model (`Model.lean`) transcribes the read path of rpc/v8, rpc/v9, rpc/v10: wire decoding of the
+arguments, dispatch, the handlers over the part of `blockchain.Reader` they use, and the node as
+the list of stored blocks PLUS the two index buckets the handlers go through (block hash → number,
+transaction hash → (number, index)) which `store` writes and `revert` deletes. The specification
+side is independent of the handlers: `resolve` (what a block id denotes on the chain), a search in
+the chain for hashes (`findTx`), `stateAfter` (the left fold of the state diffs over total maps).
 
-Hashes are opaque numbers; uniqueness of block / transaction hashes is an explicit hypothesis
-(`HashesDistinct`, `TxHashesDistinct`) where it is needed.
+What is and is not claimed. Every theorem takes ONE node; the handlers' several database reads see
+the same node (no Store / RevertHead between the reads of one request — the real code takes no
+snapshot, so a torn answer under concurrent writes is outside these theorems and outside the
+harness). The three API versions are one definition with a `Ver` parameter consulted where the Go
+packages differ (tags, pending, count, storage, filter); the by-hash and head methods have no
+`Ver` parameter at all: that they are identical in the three packages is an assumption of the
+model which only the harness checks. Where the code leaves the statement, the full statement is a
+comment, the exact behaviour is proved (`_partial` names the excluded case) and a concrete
+witness is proved next to it. Witnesses of defects that were repaired in /repo since are kept as
+regression witnesses and carry the repairing commit in their name (`…_before_<sha>`); they are
+about the model's `Cfg` variant of the old code.
 -/
 namespace Juno.C08.Props
 open Juno.C08
 
-/-! ## Reachable nodes -/
+/-! ## Histories: well-formedness and the index buckets -/
 
 /-- Every node reachable from the empty database by any sequence of operations stores block
 `i` at height `i` … -/
@@ -26,6 +32,56 @@ theorem reachable_wellFormed (ops : List Op) : WellFormed (run ops) := run_wellF
 
 /-- … and every stored block points at the hash of its predecessor (genesis at 0x0). -/
 theorem reachable_linked (ops : List Op) : Linked (run ops) := run_linked ops
+
+/-- After ANY history of Store / RevertHead / SetL1Head in which every block is new to the chain
+when it is stored (`FreshFrom`: ideal hash — re-storing a reverted block is allowed), a lookup in
+the hash → number bucket and in the tx-hash → (number, index) bucket gives exactly what a search
+in the current chain gives, and hashes on the chain are distinct. This is where "including after
+reverts" lives: it fails for a `revert` that leaves an index entry behind. -/
+theorem buckets_agree_with_chain (ops : List Op) (fr : FreshFrom {} ops) :
+    BucketsOk (run ops) ∧ HashesDistinct (run ops) ∧ TxHashesDistinct (run ops) :=
+  run_inv ops fr
+
+/-- One revert step, on any node whose buckets agree with its chain: the reverted block's hash and
+its transactions' hashes are gone from the buckets, nothing else changed (the buckets agree with
+the shorter chain), so by-hash requests for them answer not-found. -/
+theorem revert_forgets_the_block (ver : Ver) (nd nd' : Node) (bs : List Block) (b : Block) (t : Tx)
+    (inv : Inv nd) (wf : WellFormed nd) (hc : nd.chain = bs ++ [b]) (hr : revert nd = some nd') (ht : t ∈ b.txs) :
+    nd'.chain = bs ∧ Inv nd' ∧ numberByHash nd' b.hash = none ∧ resolve nd' (.hash b.hash) = none ∧
+      blockWithTxHashes ver nd' (.hash b.hash) = .err .blockNotFound ∧
+      transactionByHash nd' t.hash = .err .txnHashNotFound ∧
+      transactionReceipt nd' t.hash = .err .txnHashNotFound ∧
+      transactionStatus nd' t.hash = .err .txnHashNotFound := by
+  have inv' := revert_inv inv hr
+  obtain ⟨b', hcb, hdl, _, _, _, _⟩ := revert_chain hr
+  have hbs : nd'.chain = bs := by rw [hdl, hc, List.dropLast_concat]
+  have wf' : WellFormed nd' := revert_wellFormed wf hr
+  have hres : resolve nd' (.hash b.hash) = none := by
+    have hd := inv.2.1
+    unfold HashesDistinct at hd
+    rw [hc, List.map_append, List.nodup_append] at hd
+    simp only [resolve, hbs]
+    rw [List.findIdx?_eq_none_iff]
+    intro x hx
+    have := hd.2.2 x.hash (List.mem_map_of_mem hx) b.hash (by simp)
+    simpa using this
+  have hnf : ∀ b0 ∈ nd'.chain, ∀ u ∈ b0.txs, u.hash ≠ t.hash := by
+    have td := inv.2.2
+    unfold TxHashesDistinct at td
+    rw [hc, List.flatMap_append, List.nodup_append] at td
+    intro b0 hb0 u hu
+    rw [hbs] at hb0
+    exact td.2.2 u.hash (List.mem_flatMap.mpr ⟨b0, hb0, List.mem_map_of_mem hu⟩) t.hash
+      (by simp only [List.flatMap_cons, List.flatMap_nil, List.append_nil]; exact List.mem_map_of_mem ht)
+  have hp : isV8Pending ver (.hash b.hash) = false := by cases ver <;> rfl
+  have hv : ¬ (ver = .v8 ∧ BlockId.hash b.hash = .l1Accepted) := fun h => by cases h.2
+  refine ⟨hbs, inv', ?_, hres, ?_, ?_, ?_, ?_⟩
+  · rw [inv'.1.1 b.hash]; simpa [resolve] using hres
+  · rw [(handlers_eq_stored nd' 0 [] hp).1, blockWithTxHashes_eq inv'.1 wf' hv,
+      (resolvedBlock_none_iff nd' _).mpr hres]
+  · exact (transactionByHash_notFound_iff inv'.1 wf').mpr hnf
+  · exact (transactionReceipt_notFound_iff inv'.1 wf').mpr hnf
+  · exact (transactionStatus_notFound_iff inv'.1 wf').mpr hnf
 
 /-! ## Resolution -/
 
@@ -92,60 +148,43 @@ theorem resolve_none_iff (nd : Node) (id : BlockId) :
     cases nd.l1 <;> cases nd.chain <;> simp
   | pre => simp [resolve]
 
-/-- A reverted block's hash resolves to nothing (block hashes being distinct). -/
-theorem reverted_hash_resolves_to_nothing (nd : Node) (bs : List Block) (b : Block)
-    (h : nd.chain = bs ++ [b]) (hd : HashesDistinct nd) :
-    revert nd = some { nd with chain := bs } ∧
-      resolve { nd with chain := bs } (.hash b.hash) = none :=
-  ⟨revert_append nd bs b h, Juno.C08.reverted_hash_resolves_to_nothing nd bs b h hd⟩
-
-/-- A reverted block's transactions are no longer found by hash (transaction hashes being
-distinct): by-hash lookup, receipt and status all answer TXN_HASH_NOT_FOUND. -/
-theorem reverted_tx_not_found (nd : Node) (bs : List Block) (b : Block) (t : Tx)
-    (h : nd.chain = bs ++ [b]) (hd : TxHashesDistinct nd) (ht : t ∈ b.txs) :
-    let nd' : Node := { nd with chain := bs }
-    transactionByHash nd' t.hash = .err .txnHashNotFound ∧
-      transactionReceipt nd' t.hash = .err .txnHashNotFound ∧
-      transactionStatus nd' t.hash = .err .txnHashNotFound := by
-  have hf := Juno.C08.reverted_tx_not_found nd bs b t h hd ht
-  simp [transactionByHash, txByHash, transactionReceipt, transactionStatus, numberAndIndexByTxHash, hf]
-
 /-! ## Finality -/
 
-/-- ACCEPTED_ON_L1 exactly when an L1 head is recorded at or above the block's number. -/
-theorem finality_spec (n : Nat) (l1 : Option Nat) :
-    finality n l1 = .l1 ↔ ∃ l, l1 = some l ∧ n ≤ l := finality_l1_iff n l1
+/-
+Full-strength statement (does NOT hold of juno):
+  finality n (statusL1 nd) = .l1 ↔ ∃ l, nd.l1 = some l ∧ n ≤ l
+It fails when the recorded L1 head is the zero struct `core.L1Head{}`.
+-/
 
-/-- Finality is downward closed along the chain … -/
-theorem finality_monotone (n m : Nat) (l1 : Option Nat) (hmn : m ≤ n) (h : finality n l1 = .l1) :
-    finality m l1 = .l1 := by
-  rw [finality_l1_iff] at *
-  obtain ⟨l, hl, hle⟩ := h
-  exact ⟨l, hl, Nat.le_trans hmn hle⟩
+/-- ACCEPTED_ON_L1 exactly when an L1 head is recorded at or above the block's number — unless the
+recorded head is the zero struct (number 0, nil hash, nil root). -/
+theorem finality_spec_partial (nd : Node) (n : Nat) (hz : nd.l1Zero = false) :
+    finality n (statusL1 nd) = .l1 ↔ ∃ l, nd.l1 = some l ∧ n ≤ l := by
+  simp only [statusL1, hz]
+  exact finality_l1_iff n nd.l1
 
-/-- … and never lost when the recorded L1 head advances. -/
-theorem finality_l1_head_monotone (n l l' : Nat) (hl : l ≤ l') (h : finality n (some l) = .l1) :
-    finality n (some l') = .l1 := by
-  rw [finality_l1_iff] at *
-  obtain ⟨x, hx, hle⟩ := h
-  cases hx
-  exact ⟨l', rfl, Nat.le_trans hle hl⟩
-
-/-- The status shown in a block header is the finality of the block's own number. -/
-theorem header_status (nd : Node) (b : Block) (wf : WellFormed nd) (i : Nat) (h : nd.chain[i]? = some b) :
-    (hdrOf nd b).status = finality i (statusL1 nd) ∧ (hdrOf nd b).number = i := by
-  have := wf i b h
-  simp [hdrOf, this]
+/-- Witness: with `core.L1Head{}` recorded, `l1_accepted` denotes block 0 and the very block it
+returns is shown as ACCEPTED_ON_L2 (all versions that know the tag). -/
+theorem zero_struct_l1_head_is_taken_for_absent :
+    let nd := setL1Zero { chain := [{ number := 0, hash := 0xa, parent := 0, root := 1, oldRoot := 0, txs := [], diff := {} }],
+                          numByHash := [(0xa, 0)] }
+    nd.l1 = some 0 ∧ resolve nd .l1Accepted = some 0 ∧
+      blockWithTxHashes .v10 nd .l1Accepted = .blockHashes ⟨0, 0xa, 0, 1, .l2⟩ [] ∧
+      blockWithTxHashes .v9 nd .l1Accepted = .blockHashes ⟨0, 0xa, 0, 1, .l2⟩ [] := by
+  decide
 
 /-! ## Block methods: the data of exactly the denoted block; BLOCK_NOT_FOUND iff none -/
 
 /-- getBlockWithTxHashes / getBlockWithTxs / getBlockWithReceipts / getBlockTransactionCount /
-getStateUpdate, all versions, every identifier kind (v8 does not know `l1_accepted`): when the
-identifier denotes block `b` the answer is the projection of `b` itself — its number, hash,
-parent, root, its own transactions in order, its own state diff — with the finality of `b`;
-when it denotes nothing the answer is BLOCK_NOT_FOUND. -/
+getStateUpdate, all versions, every identifier kind (v8 has no `l1_accepted`; v8 `pending` is
+`v8_pending_answers`): when the identifier denotes block `b` the answer is the projection of `b`
+itself — its number, hash, parent, root, its own transactions in order, its own state diff — with
+the finality of `b`'s number; when it denotes nothing the answer is BLOCK_NOT_FOUND. The handlers
+reach `b` by five differently written paths (header by id then list by `header.Number`, whole
+block by id, number by hash then count, …); `resolvedBlock` is the specification. -/
 theorem block_methods_answer_denoted_block (ver : Ver) (nd : Node) (id : BlockId) (f : List Nat)
-    (wf : WellFormed nd) (hv : ¬ (ver = .v8 ∧ id = .l1Accepted)) (hp : isV8Pending ver id = false) :
+    (ok : BucketsOk nd) (wf : WellFormed nd) (hv : ¬ (ver = .v8 ∧ id = .l1Accepted))
+    (hp : isV8Pending ver id = false) :
     match resolvedBlock nd id with
     | some b =>
       blockWithTxHashes ver nd id = .blockHashes (hdrOf nd b) (b.txs.map (·.hash)) ∧
@@ -161,18 +200,12 @@ theorem block_methods_answer_denoted_block (ver : Ver) (nd : Node) (id : BlockId
       blockTransactionCount ver nd id = .err .blockNotFound ∧
       stateUpdate ver nd id f = .err .blockNotFound := by
   obtain ⟨e1, e2, e3, e4, _, e6⟩ := handlers_eq_stored nd 0 f hp
-  rw [e1, e2, e3, e4, e6, blockWithTxHashes_eq wf hv, blockWithTxs_eq wf hv, blockWithReceipts_eq hv,
-    blockTransactionCount_eq hv, stateUpdate_eq f hv]
+  rw [e1, e2, e3, e4, e6, blockWithTxHashes_eq ok wf hv, blockWithTxs_eq ok wf hv, blockWithReceipts_eq ok hv,
+    blockTransactionCount_eq ok hv, stateUpdate_eq ok f hv]
   cases resolvedBlock nd id <;> simp
 
-/-- `resolvedBlock` is the block at the resolved height. -/
-theorem resolvedBlock_spec (nd : Node) (id : BlockId) :
-    resolvedBlock nd id = (resolve nd id).bind (fun n => nd.chain[n]?) ∧
-      (resolvedBlock nd id = none ↔ resolve nd id = none) :=
-  ⟨rfl, resolvedBlock_none_iff nd id⟩
-
 /-- BLOCK_NOT_FOUND precisely when the chain lacks the block (block methods). -/
-theorem block_methods_notfound_iff (ver : Ver) (nd : Node) (id : BlockId) (wf : WellFormed nd)
+theorem block_methods_notfound_iff (ver : Ver) (nd : Node) (id : BlockId) (ok : BucketsOk nd) (wf : WellFormed nd)
     (hv : ¬ (ver = .v8 ∧ id = .l1Accepted)) (hp : isV8Pending ver id = false) :
     (blockWithTxHashes ver nd id = .err .blockNotFound ↔ resolve nd id = none) ∧
     (blockWithTxs ver nd id = .err .blockNotFound ↔ resolve nd id = none) ∧
@@ -180,17 +213,9 @@ theorem block_methods_notfound_iff (ver : Ver) (nd : Node) (id : BlockId) (wf : 
     (blockTransactionCount ver nd id = .err .blockNotFound ↔ resolve nd id = none) ∧
     (stateUpdate ver nd id [] = .err .blockNotFound ↔ resolve nd id = none) := by
   obtain ⟨e1, e2, e3, e4, _, e6⟩ := handlers_eq_stored nd 0 [] hp
-  rw [e1, e2, e3, e4, e6, blockWithTxHashes_eq wf hv, blockWithTxs_eq wf hv, blockWithReceipts_eq hv,
-    blockTransactionCount_eq hv, stateUpdate_eq [] hv, ← resolvedBlock_none_iff]
+  rw [e1, e2, e3, e4, e6, blockWithTxHashes_eq ok wf hv, blockWithTxs_eq ok wf hv, blockWithReceipts_eq ok hv,
+    blockTransactionCount_eq ok hv, stateUpdate_eq ok [] hv, ← resolvedBlock_none_iff]
   cases resolvedBlock nd id <;> simp
-
-/-- v8 answers the tag `l1_accepted` with "invalid params" (the tag does not exist in 0.8). -/
-theorem v8_rejects_l1_accepted (nd : Node) :
-    blockWithTxHashes .v8 nd .l1Accepted = .err .invalidParams ∧
-    stateUpdate .v8 nd .l1Accepted [] = .err .invalidParams ∧
-    transactionByBlockIdAndIndex .v8 nd .l1Accepted 0 = .err .invalidParams := by
-  simp [blockWithTxHashes, blockWithTxHashesStored, blockById, stateUpdate, stateUpdateStored,
-    transactionByBlockIdAndIndex, transactionByBlockIdAndIndexStored, isV8Pending]
 
 /-- blockNumber / blockHashAndNumber: the head, or "no blocks" on the empty chain. -/
 theorem head_methods (nd : Node) (wf : WellFormed nd) :
@@ -225,28 +250,27 @@ theorem head_methods (nd : Node) (wf : WellFormed nd) :
 /-
 Full-strength statement (does NOT hold of juno):
   transactionByBlockIdAndIndex ver nd id i = .err .blockNotFound ↔ resolve nd id = none
-It fails for `block_number` identifiers above the height, see
-`txByIdx_missing_block_number_reports_invalid_index` below.
+It fails for `block_number` identifiers above the height.
 -/
 
 /-- Exact behaviour: the transaction at that index of the denoted block, INVALID_TXN_INDEX past
 its end; when nothing is denoted BLOCK_NOT_FOUND — unless the identifier is a block number, in
 which case INVALID_TXN_INDEX. -/
-theorem txByIdx_exact (ver : Ver) (nd : Node) (id : BlockId) (i : Nat) (wf : WellFormed nd)
+theorem txByIdx_exact (ver : Ver) (nd : Node) (id : BlockId) (i : Nat) (ok : BucketsOk nd) (wf : WellFormed nd)
     (hv : ¬ (ver = .v8 ∧ id = .l1Accepted)) (hp : isV8Pending ver id = false) :
     transactionByBlockIdAndIndex ver nd id i =
       match resolvedBlock nd id with
       | some b => (match b.txs[i]? with | some t => .tx t | none => .err .invalidTxIndex)
       | none => if id.isNumber then .err .invalidTxIndex else .err .blockNotFound := by
   rw [(handlers_eq_stored nd i [] hp).2.2.2.2.1]
-  exact transactionByBlockIdAndIndex_eq i wf hv
+  exact transactionByBlockIdAndIndex_eq ok i wf hv
 
 /-- BLOCK_NOT_FOUND iff the chain lacks the block — for identifiers that are not block numbers. -/
-theorem txByIdx_notfound_iff_partial (ver : Ver) (nd : Node) (id : BlockId) (i : Nat)
+theorem txByIdx_notfound_iff_partial (ver : Ver) (nd : Node) (id : BlockId) (i : Nat) (ok : BucketsOk nd)
     (wf : WellFormed nd) (hv : ¬ (ver = .v8 ∧ id = .l1Accepted)) (hp : isV8Pending ver id = false)
     (hn : id.isNumber = false) :
     transactionByBlockIdAndIndex ver nd id i = .err .blockNotFound ↔ resolve nd id = none := by
-  rw [(handlers_eq_stored nd i [] hp).2.2.2.2.1, transactionByBlockIdAndIndex_eq i wf hv, ← resolvedBlock_none_iff]
+  rw [(handlers_eq_stored nd i [] hp).2.2.2.2.1, transactionByBlockIdAndIndex_eq ok i wf hv, ← resolvedBlock_none_iff]
   cases resolvedBlock nd id with
   | none => simp [hn]
   | some b => simp only []; split <;> simp
@@ -254,7 +278,8 @@ theorem txByIdx_notfound_iff_partial (ver : Ver) (nd : Node) (id : BlockId) (i :
 /-- Witness of the deviation: one stored block, request for block number 5: nothing is denoted,
 yet the answer is INVALID_TXN_INDEX, not BLOCK_NOT_FOUND (all three versions). -/
 theorem txByIdx_missing_block_number_reports_invalid_index :
-    let nd : Node := { chain := [{ number := 0, hash := 0xa, parent := 0, root := 1, oldRoot := 0, txs := [⟨0xf1, 0x13, false⟩], diff := {} }] }
+    let nd : Node := { chain := [{ number := 0, hash := 0xa, parent := 0, root := 1, oldRoot := 0, txs := [⟨0xf1, 0x13, false⟩], diff := {} }],
+                       numByHash := [(0xa, 0)], txLoc := [(0xf1, (0, 0))] }
     resolve nd (.number 5) = none ∧
       transactionByBlockIdAndIndex .v8 nd (.number 5) 0 = .err .invalidTxIndex ∧
       transactionByBlockIdAndIndex .v9 nd (.number 5) 0 = .err .invalidTxIndex ∧
@@ -266,30 +291,42 @@ theorem txByIdx_missing_block_number_reports_invalid_index :
 
 /-- getTransactionByHash answers only with a transaction of the current chain carrying the
 requested hash … -/
-theorem txByHash_sound (nd : Node) (h : Nat) (t : Tx) (wf : WellFormed nd)
+theorem txByHash_sound (nd : Node) (h : Nat) (t : Tx) (ok : BucketsOk nd) (wf : WellFormed nd)
     (ha : transactionByHash nd h = .tx t) : t.hash = h ∧ ∃ b ∈ nd.chain, t ∈ b.txs :=
-  transactionByHash_sound wf ha
+  transactionByHash_sound ok wf ha
 
 /-- … and TXN_HASH_NOT_FOUND precisely when no transaction of the chain has that hash. The same
 for the receipt and the status. -/
-theorem txByHash_notfound_iff (nd : Node) (h : Nat) (wf : WellFormed nd) :
+theorem txByHash_notfound_iff (nd : Node) (h : Nat) (ok : BucketsOk nd) (wf : WellFormed nd) :
     (transactionByHash nd h = .err .txnHashNotFound ↔ ∀ b ∈ nd.chain, ∀ t ∈ b.txs, t.hash ≠ h) ∧
     (transactionReceipt nd h = .err .txnHashNotFound ↔ ∀ b ∈ nd.chain, ∀ t ∈ b.txs, t.hash ≠ h) ∧
     (transactionStatus nd h = .err .txnHashNotFound ↔ ∀ b ∈ nd.chain, ∀ t ∈ b.txs, t.hash ≠ h) :=
-  ⟨transactionByHash_notFound_iff wf, transactionReceipt_notFound_iff wf, transactionStatus_notFound_iff wf⟩
+  ⟨transactionByHash_notFound_iff ok wf, transactionReceipt_notFound_iff ok wf, transactionStatus_notFound_iff ok wf⟩
 
 /-- A receipt names the block that holds the transaction (number and hash) and carries that
 block's finality. -/
-theorem receipt_sound (nd : Node) (h n bh : Nat) (t : Tx) (f : Fin) (wf : WellFormed nd)
+theorem receipt_sound (nd : Node) (h n bh : Nat) (t : Tx) (f : Fin) (ok : BucketsOk nd) (wf : WellFormed nd)
     (ha : transactionReceipt nd h = .receipt t f n bh) :
     t.hash = h ∧ f = finality n (statusL1 nd) ∧ ∃ b, nd.chain[n]? = some b ∧ t ∈ b.txs ∧ bh = b.hash :=
-  transactionReceipt_sound wf ha
+  transactionReceipt_sound ok wf ha
 
 /-- A status is the finality of the holding block and the execution result of that transaction. -/
-theorem status_sound (nd : Node) (h : Nat) (f : Fin) (r : Bool) (wf : WellFormed nd)
+theorem status_sound (nd : Node) (h : Nat) (f : Fin) (r : Bool) (ok : BucketsOk nd) (wf : WellFormed nd)
     (ha : transactionStatus nd h = .status f r) :
     ∃ n b t, nd.chain[n]? = some b ∧ t ∈ b.txs ∧ t.hash = h ∧ f = finality n (statusL1 nd) ∧ r = t.reverted :=
-  transactionStatus_sound wf ha
+  transactionStatus_sound ok wf ha
+
+/-- Completeness by hash on every fresh history: the transaction at index `i` of block `n` IS found
+by its hash, its receipt names block `n` (number and hash) with that block's finality, and its
+status is that finality and its own execution result — the same finality getBlockWithReceipts
+shows for it. -/
+theorem by_hash_complete (ops : List Op) (fr : FreshFrom {} ops) (n i : Nat) (b : Block) (t : Tx)
+    (hb : (run ops).chain[n]? = some b) (ht : b.txs[i]? = some t) :
+    let nd := run ops
+    transactionByHash nd t.hash = .tx t ∧
+      transactionReceipt nd t.hash = .receipt t (finality n (statusL1 nd)) n b.hash ∧
+      transactionStatus nd t.hash = .status (finality n (statusL1 nd)) t.reverted :=
+  Juno.C08.by_hash_complete (run_inv ops fr).1 (run_wellFormed ops) (run_inv ops fr).2.2 hb ht
 
 /-! ## State methods -/
 
@@ -300,86 +337,92 @@ It fails for the identifier {block_hash: 0x0}, which denotes nothing and is neve
 from a state reader, see `hash_zero_is_served_from_a_state` below.
 -/
 
-/-- The state methods read the fold of the diffs of blocks `0 … n` where `n` is the block the
-identifier denotes, and answer BLOCK_NOT_FOUND when it denotes nothing — for every identifier
-except {block_hash: 0x0} (and v8's `pending`, which is the head state). -/
-theorem state_resolution_partial (be : Backend) (ver : Ver) (nd : Node) (id : BlockId)
+/-- The state methods read the state after blocks `0 … n` where `n` is the block the identifier
+denotes, and answer BLOCK_NOT_FOUND when it denotes nothing — for every identifier except
+{block_hash: 0x0} (and v8's `pending`, see `v8_pending_state_is_head_state`). -/
+theorem state_resolution_partial (be : Backend) (ver : Ver) (nd : Node) (id : BlockId) (ok : BucketsOk nd)
     (hv : ¬ (ver = .v8 ∧ id = .l1Accepted)) (hp : ¬ (ver = .v8 ∧ id = .pre)) (hz : id ≠ .hash 0) :
     stateById be ver nd id =
       match resolve nd id with
       | some n => .ok ⟨stateBlocks nd n, if id = .latest then .head else .history⟩
       | none => .error .blockNotFound :=
-  stateById_eq be ver nd id hv hp hz
+  stateById_eq be ver nd id ok hv hp hz
 
-/-- getNonce / getClassHashAt / getClass / getClassAt on the denoted state. -/
-theorem state_methods_partial (be : Backend) (ver : Ver) (nd : Node) (id : BlockId) (a c : Nat)
+/-- v8 `pending` (no pending data) reads the head state. -/
+theorem v8_pending_state_is_head_state (be : Backend) (nd : Node) :
+    stateById be .v8 nd .pre = stateById be .v8 nd .latest := by
+  simp [stateById]
+
+/-- getNonce / getClassHashAt / getClass / getClassAt against an INDEPENDENT description of the
+state: `S = stateAfter (blocks 0 … n)` is the left fold of the state diffs over total maps
+(`AState.apply`: a written nonce / class hash takes the written value, everything else keeps its
+value, deployed contracts accumulate, declared classes accumulate), `n` the block the identifier
+denotes. Nonce and class hash of a contract of `S` (system contracts refused), CONTRACT_NOT_FOUND
+otherwise; a class iff declared in `S`; getClassAt = the class of the contract's class hash, with
+an undeclared class reported as CONTRACT_NOT_FOUND. -/
+theorem state_methods_partial (be : Backend) (ver : Ver) (nd : Node) (id : BlockId) (a c : Nat) (ok : BucketsOk nd)
     (hv : ¬ (ver = .v8 ∧ id = .l1Accepted)) (hp : ¬ (ver = .v8 ∧ id = .pre)) (hz : id ≠ .hash 0) :
     match resolve nd id with
     | none =>
       nonce be ver nd id a = .err .blockNotFound ∧ classHashAt be ver nd id a = .err .blockNotFound ∧
       classByHash be ver nd id c = .err .blockNotFound ∧ classAt be ver nd id a = .err .blockNotFound
     | some n =>
-      let st := stateBlocks nd n
+      let S := stateAfter (stateBlocks nd n)
       nonce be ver nd id a =
         (if isSystemContract a then .err .contractNotFound
-         else if deployedIn st a then .num (nonceIn st a) else .err .contractNotFound) ∧
+         else if S.contract a then .num (S.nonce a) else .err .contractNotFound) ∧
       classHashAt be ver nd id a =
         (if isSystemContract a then .err .contractNotFound
-         else if deployedIn st a then .num (classHashIn st a) else .err .contractNotFound) ∧
-      classByHash be ver nd id c = (if declaredIn st c then .num c else .err .classHashNotFound) ∧
+         else if S.contract a then .num (S.classHash a) else .err .contractNotFound) ∧
+      classByHash be ver nd id c = (if S.declared c then .num c else .err .classHashNotFound) ∧
       classAt be ver nd id a =
         (if isSystemContract a then .err .contractNotFound
-         else if deployedIn st a then
-           (if declaredIn st (classHashIn st a) then .num (classHashIn st a) else .err .contractNotFound)
+         else if S.contract a then
+           (if S.declared (S.classHash a) then .num (S.classHash a) else .err .contractNotFound)
          else .err .contractNotFound) := by
-  have e := stateById_eq be ver nd id hv hp hz
+  have e := stateById_eq be ver nd id ok hv hp hz
   cases hr : resolve nd id with
   | none =>
     rw [hr] at e
     simp [nonce, classHashAt, classByHash, classAt, e]
   | some n =>
     rw [hr] at e
-    simp only [nonce, classHashAt, classByHash, classAt, e]
+    obtain ⟨_, f2, f3, f4, f5⟩ := readers_eq_fold (stateBlocks nd n)
+    simp only [nonce, classHashAt, classByHash, classAt, e, f2, f3, f4, f5]
     refine ⟨trivial, trivial, trivial, ?_⟩
     by_cases hs : isSystemContract a = true
     · simp [hs]
-    · by_cases hd : deployedIn (stateBlocks nd n) a = true
-      · by_cases hc : declaredIn (stateBlocks nd n) (classHashIn (stateBlocks nd n) a) = true
+    · by_cases hd : (stateAfter (stateBlocks nd n)).contract a = true
+      · by_cases hc : (stateAfter (stateBlocks nd n)).declared ((stateAfter (stateBlocks nd n)).classHash a) = true
         · simp [hs, hd, hc]
         · simp [hs, hd, hc]
       · simp [hs, hd]
 
-/-- getStorageAt, all three versions: the value of the slot in the denoted state when the
-contract exists there, CONTRACT_NOT_FOUND otherwise, BLOCK_NOT_FOUND when nothing is denoted —
-provided non-zero storage only lives in contracts of the state (deployed ones, or system
-contracts a diff touched), which every valid chain satisfies. In particular v8, v9, v10 agree. -/
-theorem storage_partial (be : Backend) (ver : Ver) (nd : Node) (id : BlockId) (a k : Nat)
-    (hv : ¬ (ver = .v8 ∧ id = .l1Accepted)) (hp : ¬ (ver = .v8 ∧ id = .pre)) (hz : id ≠ .hash 0)
-    (hdep : ∀ n, resolve nd id = some n →
-      storageIn (stateBlocks nd n) a k ≠ 0 → deployedIn (stateBlocks nd n) a = true) :
+/-- getStorageAt on every reachable node (fresh history), all versions, both backends, every
+identifier except {block_hash: 0x0} and v8 `pending`: the slot's value in `S` (the fold of the
+diffs of blocks 0…n) when the contract is a contract of `S`, CONTRACT_NOT_FOUND otherwise,
+BLOCK_NOT_FOUND when nothing is denoted. v8 / v9 (probe the class hash, then read) and v10 (read,
+then probe only for zero at `latest`; history readers probe themselves) are differently written:
+they coincide because `Store` refuses storage of contracts that do not exist (`StorageInv`,
+proved by induction over the history). -/
+theorem storage_reachable (be : Backend) (ver : Ver) (ops : List Op) (fr : FreshFrom {} ops) (id : BlockId) (a k : Nat)
+    (hv : ¬ (ver = .v8 ∧ id = .l1Accepted)) (hp : ¬ (ver = .v8 ∧ id = .pre)) (hz : id ≠ .hash 0) :
+    let nd := run ops
     storageAt be ver nd id a k =
       match resolve nd id with
       | none => .err .blockNotFound
       | some n =>
-        if deployedIn (stateBlocks nd n) a then .num (storageIn (stateBlocks nd n) a k)
-        else .err .contractNotFound :=
-  storageAt_eq be ver nd id a k hv hp hz hdep
-
-/-- The state after block `n+1` is the state after block `n` updated by block `n+1`'s diff:
-a slot / nonce / class hash keeps its value unless the diff writes it; contracts and classes
-accumulate. (So the state the methods read is the fold of exactly the blocks `0 … n`.) -/
-theorem state_is_fold_of_diffs (nd : Node) (n : Nat) (b : Block) (h : nd.chain[n + 1]? = some b)
-    (a k c : Nat) :
-    let s := stateBlocks nd n
-    let s' := stateBlocks nd (n + 1)
-    storageIn s' a k = (match lookup3 b.diff.storage a k with | some v => v | none => storageIn s a k) ∧
-    nonceIn s' a = (match lookup2 b.diff.nonces a with | some v => v | none => nonceIn s a) ∧
-    classHashIn s' a = (match classInDiff b.diff a with | some v => v | none => classHashIn s a) ∧
-    deployedIn s' a = (deployedIn s a || deploysInDiff b.diff a) ∧
-    declaredIn s' c = (declaredIn s c || b.diff.declared.contains c) := by
-  simp only [stateBlocks_succ nd n b h]
-  exact ⟨storageIn_snoc _ _ _ _, nonceIn_snoc _ _ _, classHashIn_snoc _ _ _, deployedIn_snoc _ _ _,
-    declaredIn_snoc _ _ _⟩
+        let S := stateAfter (stateBlocks nd n)
+        if S.contract a then .num (S.storage a k) else .err .contractNotFound := by
+  intro nd
+  have h := storageAt_eq be ver nd id a k (run_inv ops fr).1 hv hp hz
+    (fun n _ h => storage_in_contracts (run_storageInv ops) n a k h)
+  rw [h]
+  cases resolve nd id with
+  | none => rfl
+  | some n =>
+    obtain ⟨f1, _, _, f4, _⟩ := readers_eq_fold (stateBlocks nd n)
+    simp only [f1, f4]
 
 /-- Witness of the deviation at {block_hash: 0x0}: a chain of one block deploying contract
 0x105 (class 0xc0, declared) with nonce 3 and slot 7 = 9. The identifier denotes nothing, yet
@@ -388,7 +431,8 @@ v10 getStorageAt even succeeds with 0), the new backend answers with the head st
 the block methods say BLOCK_NOT_FOUND for the same identifier. -/
 theorem hash_zero_is_served_from_a_state :
     let d : Diff := { deployed := [(0x105, 0xc0)], nonces := [(0x105, 3)], storage := [(0x105, 7, 9)], declared := [0xc0] }
-    let nd : Node := { chain := [{ number := 0, hash := 0xa, parent := 0, root := 1, oldRoot := 0, txs := [], diff := d }] }
+    let nd : Node := { chain := [{ number := 0, hash := 0xa, parent := 0, root := 1, oldRoot := 0, txs := [], diff := d }],
+                       numByHash := [(0xa, 0)] }
     resolve nd (.hash 0) = none ∧ blockWithTxHashes .v10 nd (.hash 0) = .err .blockNotFound ∧
       nonce .legacy .v10 nd (.hash 0) 0x105 = .err .contractNotFound ∧
       classByHash .legacy .v9 nd (.hash 0) 0xc0 = .err .classHashNotFound ∧
@@ -399,161 +443,94 @@ theorem hash_zero_is_served_from_a_state :
       storageAt .new .v10 nd (.hash 0) 0x105 7 = .num 9 := by
   decide
 
-/-! ## Versions -/
+/-! ## End to end: wire request → answer -/
 
-/-- v9 and v10 give the same answer to every read method on every identifier (getStorageAt under
-the conditions of `storage_partial`; getStateUpdate without the v10-only filter); v8 gives the
-same answer as well except for the tags it does not have. -/
-theorem versions_agree (nd : Node) (id : BlockId) (i a c : Nat) (be : Backend)
-    (h8 : id ≠ .l1Accepted ∧ id ≠ .pre) :
-    (blockWithTxHashes .v8 nd id = blockWithTxHashes .v9 nd id ∧ blockWithTxHashes .v9 nd id = blockWithTxHashes .v10 nd id) ∧
-    (blockWithTxs .v8 nd id = blockWithTxs .v9 nd id ∧ blockWithTxs .v9 nd id = blockWithTxs .v10 nd id) ∧
-    (blockWithReceipts .v8 nd id = blockWithReceipts .v9 nd id ∧ blockWithReceipts .v9 nd id = blockWithReceipts .v10 nd id) ∧
-    (stateUpdate .v8 nd id [] = stateUpdate .v9 nd id [] ∧ stateUpdate .v9 nd id [] = stateUpdate .v10 nd id []) ∧
-    (transactionByBlockIdAndIndex .v8 nd id i = transactionByBlockIdAndIndex .v9 nd id i ∧
-      transactionByBlockIdAndIndex .v9 nd id i = transactionByBlockIdAndIndex .v10 nd id i) ∧
-    (nonce be .v8 nd id a = nonce be .v9 nd id a ∧ nonce be .v9 nd id a = nonce be .v10 nd id a) ∧
-    (classHashAt be .v8 nd id a = classHashAt be .v9 nd id a ∧ classHashAt be .v9 nd id a = classHashAt be .v10 nd id a) ∧
-    (classByHash be .v8 nd id c = classByHash be .v9 nd id c ∧ classByHash be .v9 nd id c = classByHash be .v10 nd id c) ∧
-    (classAt be .v8 nd id a = classAt be .v9 nd id a ∧ classAt be .v9 nd id a = classAt be .v10 nd id a) := by
-  obtain ⟨h1, h2⟩ := h8
-  cases id <;> first | exact absurd rfl h1 | exact absurd rfl h2 | (simp [blockWithTxHashes, blockWithTxs, blockWithReceipts, stateUpdate, filterDiff, transactionByBlockIdAndIndex, blockWithTxHashesStored, blockWithTxsStored, blockWithReceiptsStored, stateUpdateStored, transactionByBlockIdAndIndexStored, isV8Pending, nonce, classHashAt, classByHash, classAt, blockById, stateById])
+/-- The CURRENT code (`Cfg` with both switches off, what /repo has since 4d3f28e): whatever is not
+a block id of the version — `null`, `{"block_number": null}`, `{}`, a foreign or unknown tag, any
+other JSON — is answered "invalid params" by every method that takes one, and so is `null` for
+any other required argument. -/
+theorem malformed_arguments_are_refused (be : Backend) (ver : Ver) (nd : Node) (raw : RawId)
+    (h : ∀ id, decodeId {nullCrashes := false, nullNumberIsZero := false} ver raw ≠ .ok id)
+    (f : List Nat) (i : Int) (a k c : Nat) (nr : NullRequest) :
+    let cfg : Cfg := {nullCrashes := false, nullNumberIsZero := false}
+    serve cfg be ver nd (.blockWithTxHashes raw) = .err .invalidParams ∧
+    serve cfg be ver nd (.blockWithTxs raw) = .err .invalidParams ∧
+    serve cfg be ver nd (.blockWithReceipts raw) = .err .invalidParams ∧
+    serve cfg be ver nd (.blockTransactionCount raw) = .err .invalidParams ∧
+    serve cfg be ver nd (.stateUpdate raw f) = .err .invalidParams ∧
+    serve cfg be ver nd (.transactionByBlockIdAndIndex raw i) = .err .invalidParams ∧
+    serve cfg be ver nd (.storageAt a k raw) = .err .invalidParams ∧
+    serve cfg be ver nd (.nonce raw a) = .err .invalidParams ∧
+    serve cfg be ver nd (.classHashAt raw a) = .err .invalidParams ∧
+    serve cfg be ver nd (.classByHash raw c) = .err .invalidParams ∧
+    serve cfg be ver nd (.classAt raw a) = .err .invalidParams ∧
+    serveNull cfg be ver nd nr = .err .invalidParams := by
+  intro cfg
+  have he : decodeId cfg ver raw = .error .invalidParams := decodeId_error cfg ver raw h
+  have hw : ∀ p k', withId cfg ver p raw k' = .err .invalidParams := by
+    intro p k'
+    cases raw <;> simp_all [withId, cfg]
+  refine ⟨hw _ _, hw _ _, hw _ _, hw _ _, hw _ _, ?_, hw _ _, hw _ _, hw _ _, hw _ _, hw _ _, ?_⟩
+  · simp only [serve]
+    have : (raw == RawId.null && cfg.nullCrashes && decide (i < 0)) = false := by simp [cfg]
+    rw [this]; exact hw _ _
+  · cases nr <;> simp [serveNull, cfg]
 
-/-- The transaction count agrees across versions too (v8 reads the header's count, v9/v10 the
-count by number) on well-formed nodes. -/
-theorem versions_agree_txCount (nd : Node) (id : BlockId) (h8 : id ≠ .l1Accepted) (h8' : id ≠ .pre) :
-    blockTransactionCount .v8 nd id = blockTransactionCount .v9 nd id ∧
-      blockTransactionCount .v9 nd id = blockTransactionCount .v10 nd id := by
-  have p8 : isV8Pending .v8 id = false := (isV8Pending_false_iff _ _).mpr (fun h => h8' h.2)
-  have p9 : isV8Pending .v9 id = false := by simp [isV8Pending]
-  have p10 : isV8Pending .v10 id = false := by simp [isV8Pending]
-  rw [(handlers_eq_stored nd 0 [] p8).2.2.2.1, (handlers_eq_stored nd 0 [] p9).2.2.2.1,
-    (handlers_eq_stored nd 0 [] p10).2.2.2.1]
-  have hv8 : ¬ (Ver.v8 = .v8 ∧ id = .l1Accepted) := fun h => h8 h.2
-  have hv9 : ¬ (Ver.v9 = .v8 ∧ id = .l1Accepted) := fun h => by cases h.1
-  have hv10 : ¬ (Ver.v10 = .v8 ∧ id = .l1Accepted) := fun h => by cases h.1
-  rw [blockTransactionCount_eq hv8, blockTransactionCount_eq hv9, blockTransactionCount_eq hv10]
-  exact ⟨rfl, rfl⟩
+/-- Regression witness (the code before 4d3f28e, model variant `nullCrashes`): a JSON `null` block
+id reached the v9 / v10 handlers as a nil pointer and crashed them; v8 crashed in the handlers
+that take a pointer; a null address crashed once the state was open. -/
+theorem null_argument_crashed_handler_before_4d3f28e :
+    let cfg : Cfg := {nullCrashes := true, nullNumberIsZero := true}
+    let nd : Node := { chain := [{ number := 0, hash := 0xa, parent := 0, root := 1, oldRoot := 0, txs := [], diff := {} }],
+                       numByHash := [(0xa, 0)] }
+    serve cfg .legacy .v10 nd (.nonce .null 1) = .crash ∧
+      serve cfg .legacy .v8 nd (.blockWithTxHashes .null) = .crash ∧
+      serve cfg .legacy .v8 nd (.nonce .null 1) = .err .invalidParams ∧
+      serveNull cfg .legacy .v10 nd (.nonceAddr (.tag "latest")) = .crash ∧
+      serveNull cfg .legacy .v10 nd (.nonceAddr (.obj none (some 9))) = .err .blockNotFound ∧
+      serveNull cfg .legacy .v9 nd .txHash = .crash := by
+  decide
 
-/-! ## The wire layer: decoding of block ids, dispatch, refusals -/
+/-- Regression witness (before 4d3f28e): `{"block_number": null}` was decoded as block 0 and a
+null index as index 0. -/
+theorem null_block_number_was_block_zero_before_4d3f28e :
+    let cfg : Cfg := {nullCrashes := true, nullNumberIsZero := true}
+    let nd : Node := { chain := [{ number := 0, hash := 0xa, parent := 0, root := 1, oldRoot := 0, txs := [⟨0xf1, 0x13, false⟩], diff := {} }],
+                       numByHash := [(0xa, 0)], txLoc := [(0xf1, (0, 0))] }
+    serve cfg .new .v9 nd (.blockTransactionCount .objNullNumber) = .num 1 ∧
+      serveNull cfg .new .v10 nd (.index (.tag "latest")) = .tx ⟨0xf1, 0x13, false⟩ := by
+  decide
 
-/-- `BlockID.UnmarshalJSON`, all versions: `latest`; an object's `block_hash` wins over its
-`block_number`; `{}` and non-ids are refused; v8 knows `pending` but neither `l1_accepted` nor
-`pre_confirmed`; v9 / v10 know those two but not `pending`. -/
-theorem decode_spec :
-    (∀ ver, decodeId ver (.tag "latest") = .ok .latest) ∧
-    (∀ ver h n, decodeId ver (.obj (some h) n) = .ok (.hash h)) ∧
-    (∀ ver n, decodeId ver (.obj none (some n)) = .ok (.number n)) ∧
-    (∀ ver, decodeId ver (.obj none none) = .error .invalidParams ∧ decodeId ver .other = .error .invalidParams) ∧
-    (decodeId .v8 (.tag "pending") = .ok .pre ∧ decodeId .v8 (.tag "l1_accepted") = .error .invalidParams ∧
-      decodeId .v8 (.tag "pre_confirmed") = .error .invalidParams) ∧
-    (∀ ver, ver ≠ .v8 → decodeId ver (.tag "pending") = .error .invalidParams ∧
-      decodeId ver (.tag "l1_accepted") = .ok .l1Accepted ∧ decodeId ver (.tag "pre_confirmed") = .ok .pre) := by
-  refine ⟨?_, ?_, ?_, ?_, ?_, ?_⟩
-  · intro ver; cases ver <;> simp [decodeId]
-  · intro ver h n; cases ver <;> rfl
-  · intro ver n; cases ver <;> rfl
-  · intro ver; cases ver <;> exact ⟨rfl, rfl⟩
-  · simp [decodeId]
-  · intro ver hv; cases ver
-    · exact absurd rfl hv
-    · simp [decodeId]
-    · simp [decodeId]
-
-/-- A string that is not one of the version's tags is refused. -/
-theorem decode_unknown_tag (ver : Ver) (s : String)
-    (h : s ≠ "latest" ∧ s ≠ "pending" ∧ s ≠ "pre_confirmed" ∧ s ≠ "l1_accepted") :
-    decodeId ver (.tag s) = .error .invalidParams := by
-  obtain ⟨h1, h2, h3, h4⟩ := h
-  cases ver <;> simp [decodeId, h1, h2, h3, h4]
-
-/-- Whatever cannot be decoded as a block id of the version is answered "invalid params" by
-every method that takes one, before any handler runs. -/
-theorem serve_refuses_undecodable (be : Backend) (ver : Ver) (nd : Node) (raw : RawId) (e : Err)
-    (h : decodeId ver raw = .error e) (f : List Nat) (i : Int) (a k c : Nat) :
-    e = .invalidParams ∧
-    serve be ver nd (.blockWithTxHashes raw) = .err .invalidParams ∧
-    serve be ver nd (.blockWithTxs raw) = .err .invalidParams ∧
-    serve be ver nd (.blockWithReceipts raw) = .err .invalidParams ∧
-    serve be ver nd (.blockTransactionCount raw) = .err .invalidParams ∧
-    serve be ver nd (.stateUpdate raw f) = .err .invalidParams ∧
-    serve be ver nd (.transactionByBlockIdAndIndex raw i) = .err .invalidParams ∧
-    serve be ver nd (.storageAt a k raw) = .err .invalidParams ∧
-    serve be ver nd (.nonce raw a) = .err .invalidParams ∧
-    serve be ver nd (.classHashAt raw a) = .err .invalidParams ∧
-    serve be ver nd (.classByHash raw c) = .err .invalidParams ∧
-    serve be ver nd (.classAt raw a) = .err .invalidParams := by
-  have he : e = .invalidParams := by
-    cases raw with
-    | tag s =>
-      simp only [decodeId] at h
-      split at h
-      · cases h
-      · cases ver <;> simp only at h <;> (repeat' split at h) <;> cases h <;> rfl
-    | obj hh nn => cases hh <;> cases nn <;> simp [decodeId] at h <;> exact h.symm
-    | other => simp [decodeId] at h; exact h.symm
-  subst he
-  simp [serve, withId, h]
-
-/-- A decodable id is handed to the handler of the method (dispatch), and a v8 id is never
-`l1_accepted`. -/
-theorem serve_dispatch (be : Backend) (ver : Ver) (nd : Node) (raw : RawId) (id : BlockId)
-    (h : decodeId ver raw = .ok id) (f : List Nat) (i : Nat) (a k c : Nat) :
-    ¬ (ver = .v8 ∧ id = .l1Accepted) ∧
-    serve be ver nd (.blockWithTxHashes raw) = blockWithTxHashes ver nd id ∧
-    serve be ver nd (.blockWithTxs raw) = blockWithTxs ver nd id ∧
-    serve be ver nd (.blockWithReceipts raw) = blockWithReceipts ver nd id ∧
-    serve be ver nd (.blockTransactionCount raw) = blockTransactionCount ver nd id ∧
-    serve be ver nd (.stateUpdate raw f) = stateUpdate ver nd id f ∧
-    serve be ver nd (.transactionByBlockIdAndIndex raw (Int.ofNat i)) = transactionByBlockIdAndIndex ver nd id i ∧
-    serve be ver nd (.storageAt a k raw) = storageAt be ver nd id a k ∧
-    serve be ver nd (.nonce raw a) = nonce be ver nd id a ∧
-    serve be ver nd (.classHashAt raw a) = classHashAt be ver nd id a ∧
-    serve be ver nd (.classByHash raw c) = classByHash be ver nd id c ∧
-    serve be ver nd (.classAt raw a) = classAt be ver nd id a := by
-  refine ⟨?_, ?_⟩
-  · rintro ⟨hv, hi⟩
-    subst hv
-    exact decodeId_v8_never_l1 raw id h hi
-  · have hneg : ¬ ((i : Int) < 0) := by omega
-    simp [serve, withId, h, hneg]
-
-/-- A negative transaction index is INVALID_TXN_INDEX whatever the (decodable) block id. -/
-theorem negative_index (be : Backend) (ver : Ver) (nd : Node) (raw : RawId) (id : BlockId) (i : Int)
-    (h : decodeId ver raw = .ok id) (hi : i < 0) :
-    serve be ver nd (.transactionByBlockIdAndIndex raw i) = .err .invalidTxIndex := by
-  simp [serve, withId, h, hi]
-
-/-- End to end for the block methods: request in wire form → answer, on any reachable node. -/
-theorem serve_block_methods_reachable (be : Backend) (ver : Ver) (ops : List Op) (raw : RawId) (id : BlockId)
-    (h : decodeId ver raw = .ok id) (hp : isV8Pending ver id = false) :
+/-- End to end for the block methods on every fresh history: request in wire form → answer. -/
+theorem serve_block_methods_reachable (cfg : Cfg) (be : Backend) (ver : Ver) (ops : List Op) (fr : FreshFrom {} ops)
+    (raw : RawId) (id : BlockId) (hn : raw ≠ .null) (h : decodeId cfg ver raw = .ok id)
+    (hp : isV8Pending ver id = false) :
     let nd := run ops
     match resolvedBlock nd id with
     | some b =>
-      serve be ver nd (.blockWithTxHashes raw) = .blockHashes (hdrOf nd b) (b.txs.map (·.hash)) ∧
-      serve be ver nd (.blockWithTxs raw) = .blockTxs (hdrOf nd b) b.txs ∧
-      serve be ver nd (.blockWithReceipts raw) =
+      serve cfg be ver nd (.blockWithTxHashes raw) = .blockHashes (hdrOf nd b) (b.txs.map (·.hash)) ∧
+      serve cfg be ver nd (.blockWithTxs raw) = .blockTxs (hdrOf nd b) b.txs ∧
+      serve cfg be ver nd (.blockWithReceipts raw) =
         .blockReceipts (hdrOf nd b) (b.txs.map (fun t => (t, finality b.number (statusL1 nd)))) ∧
-      serve be ver nd (.blockTransactionCount raw) = .num b.txs.length ∧
-      serve be ver nd (.stateUpdate raw []) = .update b.hash b.root b.oldRoot (filterDiff ver [] b.diff)
+      serve cfg be ver nd (.blockTransactionCount raw) = .num b.txs.length ∧
+      serve cfg be ver nd (.stateUpdate raw []) = .update b.hash b.root b.oldRoot (filterDiff ver [] b.diff)
     | none =>
-      serve be ver nd (.blockWithTxHashes raw) = .err .blockNotFound ∧
-      serve be ver nd (.blockWithTxs raw) = .err .blockNotFound ∧
-      serve be ver nd (.blockWithReceipts raw) = .err .blockNotFound ∧
-      serve be ver nd (.blockTransactionCount raw) = .err .blockNotFound ∧
-      serve be ver nd (.stateUpdate raw []) = .err .blockNotFound := by
+      serve cfg be ver nd (.blockWithTxHashes raw) = .err .blockNotFound ∧
+      serve cfg be ver nd (.blockWithTxs raw) = .err .blockNotFound ∧
+      serve cfg be ver nd (.blockWithReceipts raw) = .err .blockNotFound ∧
+      serve cfg be ver nd (.blockTransactionCount raw) = .err .blockNotFound ∧
+      serve cfg be ver nd (.stateUpdate raw []) = .err .blockNotFound := by
   intro nd
-  obtain ⟨hv, e1, e2, e3, e4, e5, _⟩ := serve_dispatch be ver nd raw id h [] 0 0 0 0
+  obtain ⟨hv, e1, e2, e3, e4, e5, _⟩ := serve_dispatch cfg be ver nd raw id hn h [] 0 0 0 0
   rw [e1, e2, e3, e4, e5]
-  exact block_methods_answer_denoted_block ver nd id [] (run_wellFormed ops) hv hp
+  exact block_methods_answer_denoted_block ver nd id [] (run_inv ops fr).1 (run_wellFormed ops) hv hp
 
 /-! ## v8 `pending` -/
 
 /-- rpc/v8 serves `pending` (no pending data) as a synthetic EMPTY block on top of the head: no
 transactions (count 0, every index invalid), parent = head hash, old root = head root, and a
 state diff that is empty below height 10 and otherwise records the hash of block `n - 10` in the
-block-hash contract 0x1; on the empty chain everything is BLOCK_NOT_FOUND. The state methods on
-`pending` read the head state (`stateById`). -/
+block-hash contract 0x1; on the empty chain everything is BLOCK_NOT_FOUND. -/
 theorem v8_pending_answers (nd : Node) (wf : WellFormed nd) (i : Nat) (f : List Nat) :
     match resolvedBlock nd .latest with
     | none =>
@@ -581,81 +558,58 @@ theorem v8_pending_answers (nd : Node) (wf : WellFormed nd) (i : Nat) (f : List 
     simp [blockWithTxHashes, blockWithTxs, blockWithReceipts, blockTransactionCount,
       transactionByBlockIdAndIndex, stateUpdate, isV8Pending, hp] <;> rfl
 
-/-! ## Reachable nodes: storage needs no side condition; by-hash lookups are complete -/
+/-! ## Versions -/
 
-/-- `Store` refuses a storage diff for a contract that does not exist (the model's `storageOk`,
-tied to the real `Finalise` by the harness), so on every reachable node non-zero storage only
-lives in contracts of the state. -/
-theorem reachable_storage_in_contracts (ops : List Op) (n a k : Nat)
-    (h : storageIn (stateBlocks (run ops) n) a k ≠ 0) : deployedIn (stateBlocks (run ops) n) a = true :=
-  storage_in_contracts (run_storageInv ops) n a k h
+/-- v9 and v10 answer alike on EVERY identifier (including `l1_accepted` and `pre_confirmed`) for
+every method with a version parameter (getStateUpdate: without the v10-only filter; getStorageAt:
+see `storage_reachable`). The model is one definition with a `Ver` parameter, so this says that
+none of the places where that parameter is consulted separates v9 from v10. -/
+theorem versions_agree_v9_v10 (nd : Node) (id : BlockId) (i a c : Nat) (be : Backend) :
+    blockWithTxHashes .v9 nd id = blockWithTxHashes .v10 nd id ∧
+    blockWithTxs .v9 nd id = blockWithTxs .v10 nd id ∧
+    blockWithReceipts .v9 nd id = blockWithReceipts .v10 nd id ∧
+    blockTransactionCount .v9 nd id = blockTransactionCount .v10 nd id ∧
+    stateUpdate .v9 nd id [] = stateUpdate .v10 nd id [] ∧
+    transactionByBlockIdAndIndex .v9 nd id i = transactionByBlockIdAndIndex .v10 nd id i ∧
+    nonce be .v9 nd id a = nonce be .v10 nd id a ∧
+    classHashAt be .v9 nd id a = classHashAt be .v10 nd id a ∧
+    classByHash be .v9 nd id c = classByHash be .v10 nd id c ∧
+    classAt be .v9 nd id a = classAt be .v10 nd id a := by
+  cases id <;> simp [blockWithTxHashes, blockWithTxs, blockWithReceipts, blockTransactionCount, stateUpdate, filterDiff,
+    transactionByBlockIdAndIndex, blockWithTxHashesStored, blockWithTxsStored, blockWithReceiptsStored,
+    blockTransactionCountStored, stateUpdateStored, transactionByBlockIdAndIndexStored, isV8Pending, nonce,
+    classHashAt, classByHash, classAt, blockById, stateById]
 
-/-- getStorageAt on every reachable node, all versions, both backends, every identifier except
-{block_hash: 0x0} (and v8 `pending`, which reads the head state): the slot's value in the denoted
-state when the contract exists there, CONTRACT_NOT_FOUND otherwise, BLOCK_NOT_FOUND when nothing
-is denoted. -/
-theorem storage_reachable (be : Backend) (ver : Ver) (ops : List Op) (id : BlockId) (a k : Nat)
-    (hv : ¬ (ver = .v8 ∧ id = .l1Accepted)) (hp : ¬ (ver = .v8 ∧ id = .pre)) (hz : id ≠ .hash 0) :
-    let nd := run ops
-    storageAt be ver nd id a k =
-      match resolve nd id with
-      | none => .err .blockNotFound
-      | some n =>
-        if deployedIn (stateBlocks nd n) a then .num (storageIn (stateBlocks nd n) a k)
-        else .err .contractNotFound :=
-  storageAt_eq be ver (run ops) id a k hv hp hz
-    (fun n _ h => storage_in_contracts (run_storageInv ops) n a k h)
-
-/-- … so the three versions and the two backends agree on getStorageAt on every reachable node
-for every identifier they share other than {block_hash: 0x0}. -/
-theorem storage_versions_agree_reachable (ops : List Op) (id : BlockId) (a k : Nat) (be be' : Backend)
-    (h8 : id ≠ .l1Accepted ∧ id ≠ .pre) (hz : id ≠ .hash 0) :
-    storageAt be .v8 (run ops) id a k = storageAt be' .v9 (run ops) id a k ∧
-      storageAt be' .v9 (run ops) id a k = storageAt be .v10 (run ops) id a k := by
-  have h1 := storage_reachable be .v8 ops id a k (fun h => h8.1 h.2) (fun h => h8.2 h.2) hz
-  have h2 := storage_reachable be' .v9 ops id a k (fun h => by cases h.1) (fun h => by cases h.1) hz
-  have h3 := storage_reachable be .v10 ops id a k (fun h => by cases h.1) (fun h => by cases h.1) hz
-  simp only at h1 h2 h3
-  rw [h1, h2, h3]
-  exact ⟨rfl, rfl⟩
-
-/-- Completeness by hash: with distinct transaction hashes, the transaction at index `i` of block
-`n` is found by its hash, its receipt names block `n` (number and hash) with that block's
-finality, and its status is that finality and its own execution result — the same finality
-getBlockWithReceipts shows for it. -/
-theorem by_hash_complete (nd : Node) (n i : Nat) (b : Block) (t : Tx) (wf : WellFormed nd)
-    (hd : TxHashesDistinct nd) (hb : nd.chain[n]? = some b) (ht : b.txs[i]? = some t) :
-    transactionByHash nd t.hash = .tx t ∧
-      transactionReceipt nd t.hash = .receipt t (finality n (statusL1 nd)) n b.hash ∧
-      transactionStatus nd t.hash = .status (finality n (statusL1 nd)) t.reverted :=
-  Juno.C08.by_hash_complete wf hd hb ht
+/-- v8 answers as v9 on the identifiers it shares with it (everything but `l1_accepted` and the
+pending / pre_confirmed tag), with any state-update filter (v8 and v9 have none); the transaction
+count — v8 reads the header's count, v9 resolves to a number and reads the count by number —
+needs the buckets to agree with the chain. -/
+theorem versions_agree_v8_v9 (nd : Node) (id : BlockId) (i a c : Nat) (f : List Nat) (be : Backend)
+    (ok : BucketsOk nd) (h8 : id ≠ .l1Accepted ∧ id ≠ .pre) :
+    blockWithTxHashes .v8 nd id = blockWithTxHashes .v9 nd id ∧
+    blockWithTxs .v8 nd id = blockWithTxs .v9 nd id ∧
+    blockWithReceipts .v8 nd id = blockWithReceipts .v9 nd id ∧
+    blockTransactionCount .v8 nd id = blockTransactionCount .v9 nd id ∧
+    stateUpdate .v8 nd id f = stateUpdate .v9 nd id f ∧
+    transactionByBlockIdAndIndex .v8 nd id i = transactionByBlockIdAndIndex .v9 nd id i ∧
+    nonce be .v8 nd id a = nonce be .v9 nd id a ∧
+    classHashAt be .v8 nd id a = classHashAt be .v9 nd id a ∧
+    classByHash be .v8 nd id c = classByHash be .v9 nd id c ∧
+    classAt be .v8 nd id a = classAt be .v9 nd id a := by
+  obtain ⟨h1, h2⟩ := h8
+  have hcount : blockTransactionCount .v8 nd id = blockTransactionCount .v9 nd id := by
+    have p8 : isV8Pending .v8 id = false := (isV8Pending_false_iff _ _).mpr (fun h => h2 h.2)
+    have p9 : isV8Pending .v9 id = false := by simp [isV8Pending]
+    rw [(handlers_eq_stored nd 0 [] p8).2.2.2.1, (handlers_eq_stored nd 0 [] p9).2.2.2.1,
+      blockTransactionCount_eq ok (fun h => h1 h.2), blockTransactionCount_eq ok (fun h => by cases h.1)]
+  refine ⟨?_, ?_, ?_, hcount, ?_, ?_, ?_, ?_, ?_, ?_⟩ <;>
+    (cases id <;> first | exact absurd rfl h1 | exact absurd rfl h2 |
+      simp [blockWithTxHashes, blockWithTxs, blockWithReceipts, stateUpdate, filterDiff,
+        transactionByBlockIdAndIndex, blockWithTxHashesStored, blockWithTxsStored, blockWithReceiptsStored,
+        stateUpdateStored, transactionByBlockIdAndIndexStored, isV8Pending, nonce,
+        classHashAt, classByHash, classAt, blockById, stateById])
 
 /-! ## v10 getStorageAt with INCLUDE_LAST_UPDATE_BLOCK -/
-
-/-- The flagged answer carries the same value as the plain v10 answer (plus the last update of
-the slot in the same state), and is the same error otherwise. -/
-theorem last_update_value (be : Backend) (nd : Node) (id : BlockId) (a k : Nat) :
-    (∃ v st, stateById be .v10 nd id = .ok st ∧ storageAt be .v10 nd id a k = .num v ∧
-        storageAtWithLastUpdate be nd id a k = .valueAt v (lastUpdateIn be st.blocks a k)) ∨
-      storageAtWithLastUpdate be nd id a k = storageAt be .v10 nd id a k := by
-  unfold storageAtWithLastUpdate
-  cases hs : stateById be .v10 nd id with
-  | error e => right; simp [storageAt, hs]
-  | ok st =>
-    cases h : storageAt be .v10 nd id a k with
-    | num v => left; exact ⟨v, st, rfl, rfl, rfl⟩
-    | _ => right; rfl
-
-/-- "Last update" as a fold over the chain: block `n+1` becomes the last update of a slot when
-its diff writes the slot — on the legacy backend unless it writes zero over zero. -/
-theorem last_update_is_fold (bs : List Block) (b : Block) (a k : Nat) :
-    lastUpdateIn .new (bs ++ [b]) a k =
-      (if (lookup3 b.diff.storage a k).isSome then b.number else lastUpdateIn .new bs a k) ∧
-    lastUpdateIn .legacy (bs ++ [b]) a k =
-      (match lookup3 b.diff.storage a k with
-       | some v => if v == 0 && storageIn bs a k == 0 then lastUpdateIn .legacy bs a k else b.number
-       | none => lastUpdateIn .legacy bs a k) :=
-  ⟨lastTouchedIn_snoc bs b a k, lastLoggedIn_snoc bs b a k⟩
 
 /-
 Full-strength statement (does NOT hold of juno): the two backends give the same last_update_block.
@@ -688,8 +642,11 @@ def exampleOps : List Op :=
 example : (run exampleOps).chain.length = 2 ∧ (run exampleOps).l1 = some 0 := by decide
 example : resolve (run exampleOps) (.hash 0xa1) = some 1 ∧ resolve (run exampleOps) (.hash 0xa2) = none ∧
     resolve (run exampleOps) .l1Accepted = some 0 ∧ resolve (run exampleOps) .latest = some 1 := by decide
-example : HashesDistinct (run exampleOps) ∧ TxHashesDistinct (run exampleOps) := by
-  unfold HashesDistinct TxHashesDistinct; decide
+example : FreshFrom {} exampleOps := by
+  simp [FreshFrom, exampleOps, FreshBlock, applyOp, store, succeeds, storageOk, headNumberAndHash, revert, setL1,
+    isSystemContract, deployedIn, deploysInDiff, lookup2]
+example : (run exampleOps).numByHash = [(0xa1, 1), (0xa0, 0)] ∧
+    (run exampleOps).txLoc = [(0xf3, (1, 0)), (0xf1, (0, 0)), (0xf2, (0, 1))] := by decide
 example : blockWithReceipts .v10 (run exampleOps) .l1Accepted =
     .blockReceipts ⟨0, 0xa0, 0, 0xe0, .l1⟩ [(⟨0xf1, 0x13, false⟩, .l1), (⟨0xf2, 0x21, true⟩, .l1)] := by decide
 example : transactionReceipt (run exampleOps) 0xf3 = .receipt ⟨0xf3, 0x40, false⟩ .l2 1 0xa1 := by decide
@@ -697,9 +654,9 @@ example : storageAt .new .v10 (run exampleOps) (.number 0) 0x105 7 = .num 9 ∧
     storageAt .new .v10 (run exampleOps) .latest 0x105 7 = .num 0 ∧
     storageAt .legacy .v9 (run exampleOps) .latest 1 5 = .num 8 ∧
     nonce .legacy .v8 (run exampleOps) (.hash 0xa1) 0x105 = .num 3 := by decide
-example : serve .new .v8 (run exampleOps) (.blockWithTxHashes (.tag "pending")) = .pendingBlock 0xa1 ∧
-    serve .new .v9 (run exampleOps) (.blockWithTxHashes (.tag "pending")) = .err .invalidParams ∧
-    serve .new .v10 (run exampleOps) (.transactionByBlockIdAndIndex (.obj (some 0xa0) (some 7)) 1) = .tx ⟨0xf2, 0x21, true⟩ ∧
-    serve .new .v10 (run exampleOps) (.transactionByBlockIdAndIndex (.tag "latest") (-1)) = .err .invalidTxIndex := by decide
+example : serve {} .new .v8 (run exampleOps) (.blockWithTxHashes (.tag "pending")) = .pendingBlock 0xa1 ∧
+    serve {} .new .v9 (run exampleOps) (.blockWithTxHashes (.tag "pending")) = .err .invalidParams ∧
+    serve {} .new .v10 (run exampleOps) (.transactionByBlockIdAndIndex (.obj (some 0xa0) (some 7)) 1) = .tx ⟨0xf2, 0x21, true⟩ ∧
+    serve {} .new .v10 (run exampleOps) (.transactionByBlockIdAndIndex (.tag "latest") (-1)) = .err .invalidTxIndex := by decide
 
 end Juno.C08.Props
